@@ -6,14 +6,23 @@ H = "harness/C11_history.py"
 def run(ctx: Ctx) -> int:
     L = ctx.pick(2, 3)
     nsh = ctx.pick(8, 64)
-    jobs = [Job(H, "h_history", timeout=ctx.pick(300, 1500), name=f"h_history[L<={L},shard {i + 1}/{nsh}]", env={"VERIF_C11_L": L, "VERIF_C11_SHARD": f"{i}/{nsh}"})
+    jobs = [Job(H, "h_history", timeout=ctx.pick(400, 1500), name=f"h_history[L<={L},core pool,shard {i + 1}/{nsh}]", env={"VERIF_C11_L": L, "VERIF_C11_SHARD": f"{i}/{nsh}"})
             for i in range(nsh)]
+    if not ctx.quick:
+        jobs += [Job(H, "h_history", timeout=1500, name=f"h_history[L<=2,whole pool,shard {i + 1}/32]", env={"VERIF_C11_L": 2, "VERIF_C11_SHARD": f"{i}/32", "VERIF_C11_HPOOL": "all"})
+                 for i in range(32)]
     ctx.functions_encoded = ["engine.py: CompilationEngine.check / reset / get_parsed / get_checked, the check worklists, DefinitionStore (register_def / register_impl / sources)",
                              "definition/function.py, declaration.py, struct.py (parse / check, generated struct methods), checker/* and cfg/* as reached by the pool — all through the public .check()"]
-    ctx.bounds = {"pool": "10 definitions: 5 rejected (branch types, maybe-undefined, closure gate, use after move, unsolved generic) and 5 accepted (closure with captures, struct with 4 fields, generic calls, nested for over range, array comprehension)",
-                  "histories": f"every sequence of up to {L} earlier .check() calls on pool members (failing ones included), then the target, then the target again",
-                  "observable": "rendered diagnostic, or the dump of the checked CFG (statements, places, types, block signatures as sorted rows), with object addresses and the session-global counter of temporaries normalised"}
-    ctx.outside_claim = ["compile() / emulate() and the HUGR itself: /repo's back end cannot run here (the property's main observable) - this check covers the checking half only",
+    ctx.functions_encoded.append("compiler/core.py CompilerContext.compile (worklist, monomorphization), cfg_compiler.py (compile_cfg, insert_return_vars), func_compiler.py, expr/stmt compilers: "
+                                 "the HUGR emitted for every accepted pool member is part of its outcome (lib/e7.lower)")
+    ctx.bounds = {"pool": "17 definitions: 8 rejected (branch types, maybe-undefined, closure gate, use after move, unsolved generic; a failing leaf, a caller of it and a caller of that caller) and 9 accepted "
+                          "(closure with captures, struct with 4 fields, generic calls, nested for over range, array comprehension, a leaf shared by two callers, a function that never returns, "
+                          "a comptime-monomorphised function instantiated twice)",
+                  "histories": f"every sequence of up to {L} earlier check+lower calls on the 8 core pool members (the failing ones, the failing call chain, the shared leaf's user, the never-returning and the "
+                               "twice-instantiated function, a closure), then any of the 17 targets, then the target again" + ("" if ctx.quick else "; and every sequence of up to 2 calls on the whole pool"),
+                  "observable": "rendered diagnostic, or the dump of the checked CFG (statements, places, types, block signatures as sorted rows) followed by a structural dump of the emitted HUGR "
+                                "(node kinds, op names, constants, function names, type arguments, parents, wiring), with object addresses and the session-global counter of temporaries normalised"}
+    ctx.outside_claim = ["everything after the emitted HUGR: packaging (ENGINE.compile's last step is incompatible with the installed hugr), validation, emulate()",
                          "histories longer than the bound; definitions outside the pool; redefinition of a function between checks"]
     ctx.assumptions = ["'first check of a session' is approximated by ENGINE.reset() + first use inside one interpreter; the first baseline of each process is taken before anything else was checked"]
     ctx.crosshair(jobs)
